@@ -75,6 +75,7 @@ func c01SeedWork(c *engine.Ctx) {
 		for _, seed := range pl.seeds {
 			seen = map[uint64]struct{}{}
 			c.EditBall([]byte(seed), pl.alpha, run)
+			c.ByteSweep([]byte(seed), true, run)
 			if c.Thorough() && len(seed) <= 60 {
 				// radius 2 with the core alphabet: a ball around every member of the core ball
 				var first [][]byte
